@@ -115,6 +115,15 @@ static void ht_add_node(struct hash_table *t, unsigned i, uint32_t bucket, unsig
 	n->key = HG[i].key;
 	n->value = HG[i].value;
 	n->refcount = (uint32_t)nd_present + nd_iters;
+#ifdef HT_CONCRETE_REFCOUNT
+	/* iterator units: the real code branches on refcount > 0, so the reference count of every node is a
+	 * concrete number (1 or 2, alternating); which part of it is "present" stays symbolic */
+	if (fix_present < 0) {
+		uint8_t rc = (uint8_t)(1 + (i % 2));
+		ASSUME(nd_present + nd_iters == rc);
+		n->refcount = rc;
+	}
+#endif
 	qb_list_init(&n->notifier_head);
 	/* key notifiers cannot carry the FREE event (qb_map_notify_add refuses it) */
 	ASSUME(nd_nevents < 16 && nd_nevents != 0);
@@ -408,21 +417,19 @@ static struct hash_table *ht_build2(unsigned n1, unsigned n2, unsigned gnot, uns
 #define HT_CASE_TO 1000
 #endif
 
-/* case enumeration of the two-bucket states for the iterator units: n1, n2 in 0..2 nodes, the iterator under
- * test fresh (-1) or parked on node pos, that node (present, parked iterators) in {(1,1), (0,1), (1,2)},
- * notifiers {none, full}: CALL(n1, n2, gnot, nnot, pos, x_present, x_iters) */
+/* case enumeration of the two-bucket states for the iterator units: n1, n2 in 0..2 nodes, the
+ * iterator under test fresh (-1) or parked on node pos, that node (present, parked iterators) in {(1,1), (0,1)},
+ * notifiers: 2 global + 1 per key: CALL(n1, n2, gnot, nnot, pos, x_present, x_iters) */
 #define HT_ENUM_ITER_CASES(nd_case, CALL) do { \
-	unsigned c_ = 0, a_, b_, t_, x_; int p_; \
+	unsigned c_ = 0, a_, b_, x_; int p_; \
 	for (a_ = 0; a_ <= 2; a_++) { \
 		for (b_ = 0; b_ <= 2; b_++) { \
 			for (p_ = -1; p_ < (int)(a_ + b_); p_++) { \
-				for (x_ = 0; x_ < (p_ < 0 ? 1u : 3u); x_++) { \
-					for (t_ = 0; t_ < 2; t_++) { \
-						if (c_ >= HT_CASE_FROM && c_ < HT_CASE_TO && (nd_case) == c_) { \
-							CALL(a_, b_, t_ * 2, t_, p_, (x_ == 1 ? 0 : 1), (x_ == 2 ? 2 : 1)); \
-						} \
-						c_++; \
+				for (x_ = 0; x_ < (p_ < 0 ? 1u : 2u); x_++) { \
+					if (c_ >= HT_CASE_FROM && c_ < HT_CASE_TO && (nd_case) == c_) { \
+						CALL(a_, b_, 2, 1, p_, (x_ == 1 ? 0 : 1), 1); \
 					} \
+					c_++; \
 				} \
 			} \
 		} \
